@@ -58,6 +58,11 @@ def gen(ctx, seed, tier):
             ri = 0 if r.random() < 0.85 else 12
             rs = 22 if size < 16384 else 0
             cases.append("S %d %d %d %d" % (size, ri, rs, rc))
+    # the first pthread_create call fails, a later one would succeed
+    for size in [65536, M, 8 * M, 8 * M + 4096, 16 * M, 32 * M, 1000000, 2**32]:
+        for e in [11, 12, 22, 1]:
+            cases.append("S %d 0 0 %d,0" % (size, e))
+    cases += ["S %d 0 0 11,11,0" % (32 * M), "S %d 0 0 11,12" % M]
     cases += ["J %d" % x for x in [0, 0, 3, 22, 35, 1, 11] + [r.randint(1, 200) for _ in range(10)]]
     real_sizes = [131072, 262144, M, 2 * M, 8 * M, 8 * M + 4096, 16 * M, 32 * M, 3 * M + 12288,
                   1000000, 131072 + 64, 5 * M + 64 * 7]   # the last three are not page multiples
@@ -81,7 +86,7 @@ def corpus(ctx):
 
 def targeted(ctx):
     return ["S 33554432 0 0 0", "T 33554432 2 0 f", "T 16777216 1 0 f", "S 1048576 0 0 11", "S 1048576 0 0 12", "J 3",
-            "S 1000000 0 0 0", "S 16448 0 0 0", "T 1000000 1 0 f", "U 16448"]
+            "S 1000000 0 0 0", "S 16448 0 0 0", "T 1000000 1 0 f", "U 16448", "S 33554432 0 0 11,0"]
 
 
 def run_impl(ctx, cases):
@@ -101,8 +106,20 @@ def l1_extra(case, impl_obs):
         return False
     t = case.split()
     st = impl_obs.split()[0] if impl_obs else ""
-    if t[0] == "S" and int(t[4]) != 0:
-        return st.startswith("st=") and st != "st=SUCCESS"
+    if t[0] == "S":
+        rcs = [int(x) for x in t[4].split(",")]
+        f = dict(x.split("=") for x in impl_obs.split() if "=" in x)
+        started, ge = f.get("started"), f.get("stack_ge")
+        if not st.startswith("st=") or started not in ("0", "1"):
+            return False
+        if all(r != 0 for r in rcs) and (st == "st=SUCCESS" or started != "0"):
+            return False            # no thread could be created: an error must be reported, nothing runs
+        # SUCCESS exactly when one thread was started, and then on a stack at least as large as requested
+        if (st == "st=SUCCESS") != (started == "1"):
+            return False
+        if started == "1" and ge != "1":
+            return False
+        return True
     if t[0] == "J" and int(t[1]) != 0:
         return st.startswith("st=") and st != "st=SUCCESS"
     return True
@@ -111,7 +128,7 @@ def l1_extra(case, impl_obs):
 def nontrivial(c):
     t = c.split()
     if t[0] == "S":
-        return int(t[4]) != 0 or int(t[1]) != 8388608
+        return t[4] != "0" or int(t[1]) != 8388608
     if t[0] == "J":
         return int(t[1]) != 0
     return True
@@ -124,7 +141,8 @@ def stats(cases, impl):
     real = [c.split() for c in cases if c.startswith("T ")]
     return {
         "cases_by_kind": d,
-        "scripted_create_failures": sum(1 for c in cases if c.startswith("S ") and int(c.split()[4]) != 0),
+        "scripted_create_failures": sum(1 for c in cases if c.startswith("S ") and c.split()[4] != "0"),
+        "scripted_first_create_fails_later_succeeds": sum(1 for c in cases if c.startswith("S ") and "," in c.split()[4]),
         "real_threads_created": sum(int(t[2]) for t in real),
         "real_stack_sizes": sorted(set(int(t[1]) for t in real)),
         "max_concurrent_threads": max([int(t[2]) for t in real] or [0]),
